@@ -131,8 +131,9 @@ class VArr:
 class VArr2:
     """mutable list of lists of ints: length, row lengths (Array Int Int), rows (Array Int (Array Int Int))"""
 
-    def __init__(self, length, rowlen, rows):
-        self.length, self.rowlen, self.rows = length, rowlen, rows
+    def __init__(self, length, rowlen, rows, present=None):
+        # present is None for a list of lists; for a dict {int: list} it is the key set (Array Int Bool) and length is unused
+        self.length, self.rowlen, self.rows, self.present = length, rowlen, rows, present
 
 
 class VRow:
@@ -424,6 +425,10 @@ class Engine:
             self.assume(L >= 0)
             I = z3.IntSort()
             return VArr2(L, self.fresh(base + '_rowlen', z3.ArraySort(I, I)), self.fresh(base + '_rows', z3.ArraySort(I, z3.ArraySort(I, I))))
+        if ty == 'intdict2':
+            I = z3.IntSort()
+            return VArr2(z3.IntVal(0), self.fresh(base + '_rowlen', z3.ArraySort(I, I)), self.fresh(base + '_rows', z3.ArraySort(I, z3.ArraySort(I, I))),
+                         present=self.fresh(base + '_keys', z3.ArraySort(I, z3.BoolSort())))
         if ty == 'pairset':
             return VSet2(self.fresh(base, z3.ArraySort(z3.IntSort(), z3.IntSort(), z3.BoolSort())))
         if ty == 'ghostfun2':
@@ -540,8 +545,10 @@ class Engine:
         """generate all obligations of one function under its contract"""
         key = (rel, qual)
         c = self.contracts[key]
-        node = self.repo.find(rel, qual)
-        self.cur_func = '{}:{}'.format(rel, qual)
+        srel, squal = c.get('source', (rel, qual))      # contract on a class MODEL: code lives under `source`
+        node = self.repo.find(srel, squal)
+        rel = srel
+        self.cur_func = '{}:{}'.format(srel, squal)
         n0 = len(self.obligations)
         self.work = [[]]
         self.exits = {'normal': 0, 'raise': {}}
@@ -589,7 +596,7 @@ class Engine:
         if isinstance(v, VArr):
             return VArr(v.length, v.arr)
         if isinstance(v, VArr2):
-            return VArr2(v.length, v.rowlen, v.rows)
+            return VArr2(v.length, v.rowlen, v.rows, v.present)
         if isinstance(v, VSet2):
             return VSet2(v.arr)
         if isinstance(v, VFun2):
@@ -789,6 +796,10 @@ class Engine:
                 i = self.norm_index(idx, base.length, t)
                 base.arr = z3.Store(base.arr, i, toz(v))
                 return
+            if isinstance(base, VArr2) and base.present is not None and isinstance(v, VTuple) and not v.items:
+                base.present = z3.Store(base.present, toz(idx), z3.BoolVal(True))
+                base.rowlen = z3.Store(base.rowlen, toz(idx), z3.IntVal(0))
+                return
             if isinstance(base, VTerms):
                 i = self.norm_index(idx, specs.tlen(base.term), t)
                 c, l = self.unpack(v, 2, t)
@@ -869,6 +880,8 @@ class Engine:
             self.pc.append(v.length >= 0)
             v.rowlen = self.fresh(name + '_rowlen', v.rowlen.sort())
             v.rows = self.fresh(name + '_rows', v.rows.sort())
+            if v.present is not None:
+                v.present = self.fresh(name + '_keys', v.present.sort())
             return v
         if isinstance(v, (VSet2, VFun2)):
             v.arr = self.fresh(name, v.arr.sort())
@@ -1238,6 +1251,8 @@ class Engine:
             return r if isinstance(op, ast.Eq) else z3.Not(r)
         if isinstance(a, VArr2) and isinstance(b, VArr2) and isinstance(op, (ast.Eq, ast.NotEq)):
             r = z3.And(toz(a.length) == toz(b.length), a.rowlen == b.rowlen, a.rows == b.rows)
+            if a.present is not None and b.present is not None:
+                r = z3.And(r, a.present == b.present)
             return r if isinstance(op, ast.Eq) else z3.Not(r)
         if isinstance(a, (VSet2, VFun2)) and type(a) is type(b) and isinstance(op, (ast.Eq, ast.NotEq)):
             r = a.arr == b.arr
@@ -1282,6 +1297,8 @@ class Engine:
             if isinstance(x, int) and x == 0:
                 return specs.haszero(container.term)
             raise Unsupported('membership in abstract sequence')
+        if isinstance(container, VArr2) and container.present is not None:
+            return z3.Select(container.present, toz(x))
         if isinstance(container, VSet2) and isinstance(x, VTuple) and len(x.items) == 2:
             return z3.Select(container.arr, toz(x.items[0]), toz(x.items[1]))
         if isinstance(container, VObj):
@@ -1345,6 +1362,10 @@ class Engine:
             if getattr(self, 'in_spec', False):
                 return get(toz(idx))
             return get(self.norm_index(idx, L, e))
+        if isinstance(base, VArr2) and base.present is not None:
+            if not getattr(self, 'in_spec', False):
+                self.oblige('hazard', 'dict key present (KeyError): {}'.format(ast.unparse(e)), z3.Select(base.present, toz(idx)), e.lineno)
+            return VRow(base, toz(idx))
         if isinstance(base, VArr2):
             i = toz(idx) if getattr(self, 'in_spec', False) else self.norm_index(idx, base.length, e)
             return VRow(base, i)
@@ -1383,8 +1404,8 @@ class Engine:
             t = z3.Int('rev!j')
             n = base.length
             return VArr(n, z3.Lambda([t], z3.Select(base.arr, n - 1 - t)))
-        if isinstance(base, VArr) and lo is None and hi is None and st is None:
-            return VArr(base.length, base.arr)
+        if isinstance(base, (VArr, VRow)) and lo is None and hi is None and st is None:
+            return VArr(base.length, base.arr)         # slice copy: fresh list, same content
         if isinstance(base, VCon) and lo is None and hi == -2 and st is None:
             return VTerms(base.terms)            # slice copy: a fresh list with the same content
         if isinstance(base, (VSeq, VMList)) and base.term.sort() == specs.OSeq and getattr(self, 'in_spec', False):
@@ -1648,6 +1669,8 @@ class Engine:
             else:
                 raise Unsupported('modifies target ' + m)
         res = None
+        if 'returns' not in c and any('result' in e for e in c.get('ensures', [])):
+            raise Unsupported('contract of {} constrains `result` but declares no `returns` type'.format(key[1]))
         if 'returns' in c:
             res = self.fresh_of_type('ret_' + key[1], c['returns'])
             if isinstance(res, VObj):
@@ -1945,6 +1968,8 @@ def b_len(eng, node, v):
         return {'ISeq': specs.ilen, 'CSeq': specs.clen, 'OSeq': specs.olen}[v.term.sort().name()](v.term)
     if isinstance(v, VArr):
         return v.length
+    if isinstance(v, VSet2):
+        return specs.card2(v.arr)
     if isinstance(v, VRow):
         return v.length
     if isinstance(v, VArr2):
@@ -2232,7 +2257,15 @@ def lib_bisect_right(eng, node, row, x):
     return pos
 
 
+def lm_dict_get(eng, node, d, key, default=None):
+    if d.present is None or not (isinstance(default, VTuple) and not default.items):
+        raise Unsupported('dict.get shape')
+    if eng.branch(z3.Select(d.present, toz(key))):
+        return VRow(d, toz(key))
+    return VTuple([], 'list')
+
+
 LIBRARY['bisect.bisect_right'] = lib_bisect_right
-LIST_METHODS = {('VRow', 'insert'): lm_row_insert, ('VRow', 'remove'): lm_row_remove, ('VArr2', 'append'): lm_arr2_append,
+LIST_METHODS = {('VArr2', 'get'): lm_dict_get, ('VRow', 'insert'): lm_row_insert, ('VRow', 'remove'): lm_row_remove, ('VArr2', 'append'): lm_arr2_append,
                 ('VSet2', 'add'): lm_set_add, ('VSet2', 'remove'): lm_set_remove,('VTuple', 'append'): lm_append, ('VMList', 'append'): lm_append, ('VArr', 'append'): lm_append,
                 ('VTuple', 'pop'): lm_pop, ('VArr', 'pop'): lm_pop}
